@@ -726,7 +726,11 @@ fn main() {
         v
     };
     // normalisation phase: one-line corpora with symbols that NFKC rewrites; one unit per corpus
-    let norm_lines: Vec<String> = strings(&NORM_ALPHA, run.pick(3, 4)).into_iter().filter(|l| l.chars().any(|c| !c.is_ascii())).collect();
+    let mut norm_lines: Vec<String> = strings(&NORM_ALPHA, run.pick(3, 4)).into_iter().filter(|l| l.chars().any(|c| !c.is_ascii())).collect();
+    // two spellings of one word in one line (the counts of a line are merged per normalised word):
+    // long enough for a bare first word, two spellings with a leading space and a competing pair
+    norm_lines.extend(strings(&["a", "\u{ff41}", " "], run.pick(6, 7)).into_iter().filter(|l| l.chars().count() >= 5 && l.contains('\u{ff41}') && l.contains("a")));
+    norm_lines.extend(strings(&["fi", "\u{fb01}", " "], run.pick(4, 5)).into_iter().filter(|l| l.contains('\u{fb01}') && l.contains("fi")));
     if let Some(n) = run.describe_unit() {
         if n as usize >= corpora.len() + sus.len() + file_lists.len() {
             println!("{}", json!({"lines": [norm_lines.get(n as usize - corpora.len() - sus.len() - file_lists.len())], "grid": "requested merges {1, 3, 60} x normalization {none, nfkc} x num_threads {1, 2}, each trained twice"}));
@@ -758,7 +762,7 @@ fn main() {
     }
     run.bounds.insert("corpora".into(), json!(corpora.len()));
     run.bounds.insert("file_phase_line_lists".into(), json!(file_lists.len()));
-    run.bounds.insert("normalization_phase".into(), json!(format!("{} one-line corpora over {NORM_ALPHA:?} with at most {} symbols and at least one non-ASCII symbol x requested merges {{1, 3, 60}} x normalization {{none, nfkc}} x num_threads {{1, 2}}", norm_lines.len(), run.pick(3, 4))));
+    run.bounds.insert("normalization_phase".into(), json!(format!("{} one-line corpora (over {NORM_ALPHA:?} with at most {} symbols and at least one non-ASCII symbol; over [a, fullwidth a, space] and [fi, ligature fi, space] with both spellings in the line) x requested merges {{1, 3, 60}} x normalization {{none, nfkc}} x num_threads {{1, 2}}", norm_lines.len(), run.pick(3, 4))));
     run.bounds.insert("file_phase".into(), json!(format!("2 lines of at most {} symbols each, 3 lines of at most 1 symbol each; every cut into files x max_lines_per_file {{none, 1}} x every line-termination pattern (any set of files with an unterminated last line; CRLF) x requested merges {{1, 60}} x num_threads {{1, 2}}", run.pick(2, 3))));
     run.bounds.insert("requested_merges".into(), json!(MERGES.iter().map(|m| json!({"merges": m.0, "vocab_size": m.1, "num_special_tokens": m.2})).collect::<Vec<_>>()));
     run.bounds.insert("normalization".into(), json!(["none", "nfkc"]));
